@@ -167,6 +167,23 @@ def check_step(pre, op, post_tree):
     return out
 
 
+def check_split_then_raise(pre, split_tree):
+    """Two-step invariant: raising directly after boyd_split removes all but one block of every
+    constituent, i.e. the label multiset is the one before the split."""
+    r2 = transform.raising(uncanon(canon(split_tree)))
+    probs = monitor(r2, len(pre['toks']))
+    if probs:
+        return [('ill-formed', 'raising after boyd_split: ' + '; '.join(probs))]
+    post = summary(r2)
+    out = []
+    if post['toks'] != pre['toks']:
+        out.append(('tokens-changed', 'boyd_split+raising: token sequence %r became %r' % (pre['toks'], post['toks'])))
+    if post['labels'] != pre['labels']:
+        out.append(('label-multiset', 'boyd_split+raising: constituent labels %r, expected %r (one node per '
+                    'constituent must survive)' % (dict(post['labels']), dict(pre['labels']))))
+    return out
+
+
 def pre_summary(t):
     s = summary(t)
     se = collections.Counter()
@@ -189,33 +206,40 @@ def initial_trees(chunk):
         def lab(p, s):
             return LABELS[(sum(p) + len(p)) % len(LABELS)]
 
-        def edge(p, s):
-            return 'HD' if p[-1] == 0 else '--'
-        root = model.decorate(sh, lab, edge)
-        for combo in itertools.product(['w'] + PWORDS, repeat=n):
-            if sum(1 for w in combo if w != 'w') > maxp:
-                continue
-            toks = model.mk_tokens(n, words=list(combo), pos=[POS[i % len(POS)] for i in range(n)],
-                                   edge=['NK' if i % 2 else '--' for i in range(n)])
-            yield model.MT(1, toks, root)
+        for pattern in (0, 1):
+            def edge(p, s):
+                # pattern 0: first child is HD; pattern 1: no HD on constituents, tokens alternate NK/HD (heads on the right)
+                return ('HD' if p[-1] == 0 else '--') if pattern == 0 else '--'
+            root = model.decorate(sh, lab, edge)
+            for combo in itertools.product(['w'] + PWORDS, repeat=n):
+                if sum(1 for w in combo if w != 'w') > maxp:
+                    continue
+                if pattern == 1 and any(w != 'w' for w in combo):
+                    continue
+                tok_edges = ['NK' if i % 2 else '--' for i in range(n)] if pattern == 0 else \
+                            ['HD' if i % 2 else 'NK' for i in range(n)]
+                toks = model.mk_tokens(n, words=list(combo), pos=[POS[i % len(POS)] for i in range(n)], edge=tok_edges)
+                yield model.MT(1, toks, root)
 
 
 def plan(tier, seed):
     if tier == 'quick':
-        specs = [(1, 2, 1, 3, 1), (2, 2, 2, 3, 1), (3, 1, 2, 3, 2), (4, 1, 1, 3, 2)]
+        specs = [(1, 2, 1, 4, 1), (2, 2, 2, 4, 1), (3, 1, 2, 4, 4), (4, 1, 1, 4, 4)]
     else:
         specs = [(1, 3, 1, 5, 1), (2, 2, 2, 5, 2), (3, 2, 2, 5, 24), (4, 1, 2, 4, 6), (5, 0, 1, 4, 1)]
     chunks = []
     for n, u, maxp, L, parts in specs:
-        for c in sweep.shape_chunks([(n, u)], per_chunk=2, maxp=maxp, depth=L):
+        for c in sweep.shape_chunks([(n, u)], per_chunk=2, maxp=maxp, depth=L, tier=tier):
             for part in range(parts):
                 chunks.append(dict(c, parts=parts, part=part))
     return {
         'chunks': chunks,
         'rule': 'initial states: every hierarchy over n tokens (<= u unary insertions) x every word assignment '
                 'with <= p punctuation tokens from %r; transitions: %d transformation instances, enabled when '
-                'their documented prerequisites hold; BFS to depth L with a seen-set on (canonical tree, flags). '
-                'non-trivial initial states = those with punctuation or a gap' % (PWORDS, len(OPS)),
+                'their documented prerequisites hold%s; BFS to depth L with a seen-set on (canonical tree, flags); two '
+                'edge-label patterns (heads left / heads right). '
+                'non-trivial initial states = those with punctuation or a gap'
+                % (PWORDS, len(OPS), ' (quick tier leaves out %s)' % ', '.join(QUICK_SKIP) if tier == 'quick' else ''),
         'bound': ', '.join('n=%d:u<=%d:p<=%d:L=%d' % s[:4] for s in specs),
         'exhaustive': True,
         'explanation': 'states = distinct (canonical tree, prerequisite flags) reached; transitions = real '
@@ -227,7 +251,10 @@ def plan(tier, seed):
     }
 
 
-def explore(inits, depth, res):
+QUICK_SKIP = ('mark_heads_ptb', 'binarize_bare', 'punctuation_symetrify_relc')
+
+
+def explore(inits, depth, res, skip_ops=()):
     seen = set()
     frontier = collections.deque()
     for mt in inits:
@@ -246,13 +273,15 @@ def explore(inits, depth, res):
         pre = pre_summary(uncanon(c))
         new_succ = 0
         for op, (fname, params) in OPS.items():
-            if not enabled(op, flags, pre['bare']):
+            if op in skip_ops or not enabled(op, flags, pre['bare']):
                 continue
             t = uncanon(c)
             res.transitions += 1
             try:
                 r = getattr(transform, fname)(t, **params)
                 probs = check_step(pre, op, r)
+                if op == 'boyd_split' and not probs:
+                    probs = check_split_then_raise(pre, r)
             except Exception as e:
                 probs = [('exception', '%s: %s' % (type(e).__name__, e))]
                 r = None
@@ -306,6 +335,8 @@ def check_case(case):
             try:
                 r = getattr(transform, fname)(t, **params)
                 probs = check_step(pre, op, r)
+                if op == 'boyd_split' and not probs:
+                    probs = check_split_then_raise(pre, r)
             except Exception as e:
                 probs = [('exception', '%s: %s' % (type(e).__name__, e))]
             for kind, detail in probs:
@@ -325,5 +356,5 @@ def run_chunk(chunk):
         res.evals = len(inits)
         res.nontrivial = sum(1 for m in inits if any(t['word'] != 'w' for t in m.toks)
                              or model.mt_tree_gap_degree(m.root) > 0)
-        explore(inits, chunk['depth'], res)
+        explore(inits, chunk['depth'], res, QUICK_SKIP if chunk.get('tier') == 'quick' else ())
     return res
